@@ -178,11 +178,28 @@ func RunGuidRace(paths []string) vx.Out {
 	w.Quiesce()
 	t := w.Topic("t")
 	gen := make([][]MessageID, len(paths))
+	var pre []string
+	nThreads := 0
+	for _, p := range paths {
+		if p == "exhaust" {
+			// the topic has just handed out the 4096 ids of the current millisecond (the
+			// clock does not move while nothing blocks): whoever asks next must wait
+			for k := 0; k < 4096; k++ {
+				id := t.GenerateID()
+				pre = append(pre, string(id[:]))
+			}
+		} else {
+			nThreads++
+		}
+	}
 	var wg vsync.WaitGroup
-	wg.Add(len(paths))
+	wg.Add(nThreads)
 	vrt.Window(true)
 	for i, p := range paths {
 		i, p := i, p
+		if p == "exhaust" {
+			continue
+		}
 		vrt.GoNamed(p, func() {
 			switch p {
 			case "pub":
@@ -238,6 +255,17 @@ func RunGuidRace(paths []string) vx.Out {
 		}
 	}
 	var viol []vx.Found
+	if len(pre) > 0 {
+		// ids handed out after the burst are larger than every id of the burst
+		last := pre[len(pre)-1]
+		for _, id := range ids {
+			if id <= last {
+				viol = append(viol, vx.Found{Sig: fmt.Sprintf("C12 id handed out after an exhausted millisecond is not larger than the ids before it :: race %v", paths), Detail: fmt.Sprintf("id %s after the burst ending in %s", id, last)})
+				break
+			}
+		}
+		ids = append(ids, pre...)
+	}
 	sort.Strings(ids)
 	for i := 1; i < len(ids); i++ {
 		if ids[i] == ids[i-1] {
